@@ -16,6 +16,7 @@
 
 mod model;
 mod sut;
+mod twothreads;
 
 use model::{Case, Expect, FaultKind, HANG_CONFIRMED, Interp, K_HANG, Op, Progress};
 use proptest::prelude::*;
@@ -541,5 +542,15 @@ fn main() {
         }
     }
     ck.extra("cases_completed_only_on_watchdog_rerun", SLOW_RERUNS.load(Ordering::Relaxed).into());
+    // two threads, windows stretched by a slow key hash (multi_layer.rs has no schedule hooks)
+    ck.run(
+        Section::enumerate(
+            "two-threads-slow-hash",
+            "thread A repeats get / get_with_validation / batch_get / contains+get of a tracked key that a lower layer serves, with a key hash that sleeps 6 ms on that thread; thread B keeps putting / putting and removing / put_to_layer + promote / putting and sometimes removing other keys; promotion strategies OnHit, AfterNHits(2), Manual: both threads finish (no progress of a stuck pair for 60 s = the calls do not return)".to_string(),
+            || Box::new(twothreads::all_cases().into_iter()),
+            twothreads::check,
+        )
+        .shards(16),
+    );
     ck.finish();
 }
